@@ -17,7 +17,6 @@ import numpy as np
 
 from .. import tlc
 from ..common import Report, MachineryError, seed, quiet
-from . import cyclo12 as cy
 from .tbf_common import (cyclo_library_check, sorted_states, build_system, exact_rows_array, validate_parallel, enumerate_states, run_tlc,
                          drop_scratch, guarded, skipped_private, finish_on_error, project_exact, TOL)
 
@@ -301,50 +300,80 @@ def magnitude_bound(m, n):
     return big
 
 
-def make_record(rep, rng, m, cmp):
-    """one call of a real back end -> record with exact (rounded, integrality verified) rows; None if skipped"""
+def make_record(rep, rng, m):
+    """one call of a real back end -> record with exact (rounded, integrality verified) rows at the k-points the code reports;
+    None if skipped / the library raised (reported)"""
     from wannierberri.data_K.data_K_R import Data_K_R
-    import wannierberri as wb
     n = rng.choice([0, 0, 1, 1, 2, 3])
     while n > 0 and magnitude_bound(m, n) > 12000:
         n -= 1
     cs = sorted(rng.randint(1, 3) for _ in range(n))
     rng.shuffle(cs)
-    syst = build_system(m["nw"], m["lat"], m["D"], m["tau"], m["hops"])
-    with quiet():
-        grid = wb.Grid(syst, NKdiv=1, NKFFT=list(m["fft"]))
     kind = rng.choice(["fftw", "numpy", "slow", "klist"])
     via = rng.choice(["Xbar", "R_to_k"]) if n > 0 else rng.choice(["HH_K", "Xbar", "R_to_k"])
     rec = dict(m, cs=cs, via=via)
-    with quiet():
-        if kind == "klist":
-            nk = rng.randint(1, 8)
-            k12 = [[rng.randint(-12, 23) for _ in range(3)] for _ in range(nk)]
-            d = Data_K_R(syst, grid=grid, k_list=np.array(k12, dtype=float) / 12.0, fftlib="fftw")
-            rec.update(kind="klist", k12=k12, lib="slow_path")
+    nkl = rng.randint(1, 8)
+    k12 = [[rng.randint(-12, 23) for _ in range(3)] for _ in range(nkl)]
+    det = {k: v for k, v in rec.items()}
+
+    def run():
+        syst = build_system(m["nw"], m["lat"], m["D"], m["tau"], m["hops"])
+        grid = make_grid(rep, syst, tuple(m["fft"]))
+        with quiet():
+            if kind == "klist":
+                d = Data_K_R(syst, grid=grid, k_list=np.array(k12, dtype=float) / 12.0, fftlib="fftw")
+            else:
+                d = Data_K_R(syst, dK=np.array(m["dk"], dtype=float) / 12.0, grid=grid, fftlib=kind)
+            if via == "HH_K":
+                A = np.array(d.HH_K)
+            elif via == "Xbar":
+                A = unrotate(d.Xbar('Ham', n), d.UU_K)
+            else:
+                A = np.array(d.rvec.R_to_k(d.get_R_mat('Ham').copy(), der=n, hermitian=False))
+        ka = None
+        if kind != "klist":
+            try:
+                ka = np.array(d.kpoints_all)
+            except AttributeError as ex:
+                skipped_private(rep, "Data_K.kpoints_all (the order of the FFT grid is then assumed to be the one of the specification)", ex)
+        return A, ka
+    done, r = guarded(rep, f"Data_K_R:{kind}", dict(det, kind=kind), run)
+    if not done:
+        return None
+    A, ka = r
+    if kind == "klist":
+        rec.update(kind="klist", k12=k12, lib="klist")
+    else:
+        fft, dk = m["fft"], m["dk"]
+        if ka is None:
+            kk = [[(12 // fft[0] * i + dk[0]) % 12, (12 // fft[1] * j + dk[1]) % 12, (12 // fft[2] * k + dk[2]) % 12]
+                  for i in range(fft[0]) for j in range(fft[1]) for k in range(fft[2])]
         else:
-            d = Data_K_R(syst, dK=np.array(m["dk"], dtype=float) / 12.0, grid=grid, fftlib=kind)
-            rec.update(kind="fft", lib=kind, k12=[])
-        if via == "HH_K":
-            A = np.array(d.HH_K)
-        elif via == "Xbar":
-            A = unrotate(d.Xbar('Ham', n), d.UU_K)
-        else:
-            A = np.array(d.rvec.R_to_k(d.get_R_mat('Ham').copy(), der=n, hermitian=False))
+            t = twelfths(ka)
+            if t is None:
+                rep.violation(f"kpoints_all:off_grid:{kind}", dict(det, kpoints_all=np.asarray(ka).tolist()))
+                return None
+            kk = (t % 12).tolist()
+        rec.update(kind="fft", lib=kind, k12=kk)
     idx = (slice(None), slice(None), slice(None)) + tuple(c - 1 for c in cs)
     A = A[idx] * float(m["D"]) ** n
     try:
-        rec["rows"] = cy.mat_from_complex(A, bound=max(64, int(magnitude_bound(m, n)) + 2))
+        rec["rows"] = project_exact(A, bound=max(64, int(magnitude_bound(m, n)) + 2))
     except ValueError as e:
         rep.violation(f"non-integral projection:{via}:{rec['lib']}", dict(record=rec, error=str(e)))
         return None
     return rec
 
 
+NUMERIC_SIZES = (1, 2, 3, 4, 5, 6, 7, 8, 9, 11, 12, 16)
+
+
 def numeric_only(rep, rng, ncases):
     """random real-valued models / lattices / centres / FFT sizes / K-shifts: the back ends against each other"""
     import wannierberri as wb
+    from wannierberri.data_K.data_K_R import Data_K_R
     worst = 0.0
+    sizes_seen = set()
     for ic in range(ncases):
         r = np.random.RandomState(rng.randrange(1 << 30))
         nw = int(r.randint(1, 4))
@@ -360,52 +389,113 @@ def numeric_only(rep, rng, ncases):
                     if R != (0, 0, 0):
                         ham[tuple(-x for x in R)][(b, a)] = np.conj(M[a, b])
         lat = np.eye(3) + 0.3 * r.randn(3, 3)
+        while abs(np.linalg.det(lat)) < 0.2:
+            lat = np.eye(3) + 0.3 * r.randn(3, 3)
         cen = 2 * r.rand(nw, 3) - 0.5
-        with quiet():
-            syst = wb.system.System_R.from_sparse(real_lattice=lat, wannier_centers_red=cen, matrices={"Ham": dict(ham)})
-        fft = tuple(int(x) for x in r.randint(1, 6, size=3))
+        while True:
+            fft = tuple(int(r.choice(NUMERIC_SIZES)) for _ in range(3))
+            if fft[0] * fft[1] * fft[2] <= 160:
+                break
+        sizes_seen |= set(fft)
         nk = fft[0] * fft[1] * fft[2]
         dk = r.rand(3)
-        from wannierberri.data_K.data_K_R import Data_K_R
-        with quiet():
-            grid = wb.Grid(syst, NKdiv=1, NKFFT=list(fft))
+        det = dict(seed_case=ic, nw=nw, NKFFT=list(fft), dK=dk.tolist(), lattice=lat.tolist(), centres=cen.tolist(),
+                   ham={str(k): {str(kk): str(vv) for kk, vv in v.items()} for k, v in ham.items()})
+        done, built = guarded(rep, "numeric_only:from_sparse", det, lambda: _numeric_system(wb, lat, cen, ham, fft, rep))
+        rep.case(("numeric", ic, nk, nw), nontrivial=False)
+        if not done:
+            continue
+        syst, grid = built
         res = {}
         for lib in LIBS + ("klist",):
-            with quiet():
-                d = Data_K_R(syst, dK=dk, grid=grid, fftlib=lib) if lib != "klist" else \
-                    Data_K_R(syst, grid=grid, k_list=(grid.points_FFT + dk[None]) % 1, fftlib="numpy")
-                res[lib] = [np.array(d.HH_K)] + [unrotate(d.Xbar('Ham', n), d.UU_K) for n in (1, 2, 3)]
-        ref = res["slow"]
+            def run(lib=lib):
+                with quiet():
+                    if lib != "klist":
+                        d = Data_K_R(syst, dK=dk, grid=grid, fftlib=lib)
+                        k = np.array(d.kpoints_all)
+                    else:
+                        k = kref
+                        d = Data_K_R(syst, grid=grid, k_list=kref, fftlib="numpy")
+                    vals = [np.array(d.HH_K)] + [unrotate(d.Xbar('Ham', n), d.UU_K) for n in (1, 2, 3)]
+                    vals.append(np.array(d.rvec.R_to_k(d.get_R_mat('Ham').copy(), der=1, hermitian=True)))
+                return vals, k
+            if lib == "klist":
+                if "slow" not in res:
+                    continue
+                kref = res["slow"][1]
+            done, out = guarded(rep, f"numeric_only:Data_K_R:{lib}", dict(det, fftlib=lib), run)
+            if done:
+                res[lib] = out
+        if "slow" not in res:
+            continue
+        ref, kref = res["slow"]
         for lib in ("fftw", "numpy", "klist"):
-            for n in range(4):
+            if lib not in res:
+                continue
+            vals, k = res[lib]
+            if k.shape != kref.shape or np.abs(((k - kref + 0.5) % 1.0) - 0.5).max() > 1e-9:
+                # another order of the grid: match the rows by their k-points (distance on the circle)
+                rowmap = [int(np.argmin(np.abs(((kref - kk[None, :] + 0.5) % 1.0) - 0.5).max(axis=1))) for kk in k]
+                if sorted(rowmap) != list(range(nk)):
+                    rep.violation(f"numeric_only:kpoints_all:{lib}", dict(det, what="the k-points of this back end are not those of 'slow'"))
+                    continue
+                vals = [_scatter(A, rowmap) for A in vals]
+            for n in range(5):
                 scale = max(1.0, float(np.abs(ref[n]).max()))
-                dev = float(np.abs(res[lib][n] - ref[n]).max()) / scale
-                worst = max(worst, dev)
+                dev = float(np.abs(vals[n] - ref[n]).max()) / scale if vals[n].shape == ref[n].shape else float("inf")
+                worst = max(worst, dev) if np.isfinite(dev) else worst
+                name = f"der{n}" if n < 4 else "der1_hermitian=True"
                 if dev > 1e-8:
-                    rep.violation(f"numeric_only:backends_differ:{lib}-slow:der{n}",
-                                  dict(seed_case=ic, nw=nw, NKFFT=list(fft), dK=dk.tolist(), lattice=lat.tolist(), centres=cen.tolist(),
-                                       ham={str(k): {str(kk): str(vv) for kk, vv in v.items()} for k, v in ham.items()}, deviation=dev))
-                hd = float(np.abs(res[lib][n] - res[lib][n].swapaxes(1, 2).conj()).max()) / scale
+                    rep.violation(f"numeric_only:backends_differ:{lib}-slow:{name}", dict(det, deviation=dev))
+        for lib, (vals, _) in res.items():
+            for n in range(4):
+                scale = max(1.0, float(np.abs(vals[n]).max()))
+                hd = float(np.abs(vals[n] - vals[n].swapaxes(1, 2).conj()).max()) / scale
                 worst = max(worst, hd)
                 if hd > 1e-8:
                     rep.violation(f"numeric_only:hermitian:{lib}:der{n}", dict(seed_case=ic, nw=nw, NKFFT=list(fft), deviation=hd))
-        rep.case(("numeric", ic, nk, nw), nontrivial=False)
-    rep.part("numeric_only", cases=ncases, max_relative_deviation=worst,
-             what="random real-valued models, lattices, centres, FFT grids 1..5, real K-shifts: fftw / numpy / k-list vs slow and Hermiticity (1e-8)")
+            scale = max(1.0, float(np.abs(vals[1]).max()))
+            hd = float(np.abs(vals[4] - vals[1]).max()) / scale if vals[4].shape == vals[1].shape else float("inf")
+            if hd > 1e-8:
+                rep.violation(f"numeric_only:hermitian=True_changes_der1:{lib}", dict(seed_case=ic, nw=nw, NKFFT=list(fft), deviation=hd))
+    rep.part("numeric_only", cases=ncases, max_relative_deviation=worst, fft_sizes_seen=sorted(sizes_seen),
+             what="random real-valued models, lattices, centres, FFT sizes from " + str(list(NUMERIC_SIZES)) + " (<= 160 points), real "
+                  "K-shifts: fftw / numpy / k-list vs slow for H and derivatives 1-3 and R_to_k(der=1, hermitian=True), Hermiticity (1e-8)")
+
+
+def _scatter(A, rowmap):
+    B = np.empty_like(A)
+    B[rowmap] = A
+    return B
+
+
+def _numeric_system(wb, lat, cen, ham, fft, rep):
+    with quiet():
+        syst = wb.system.System_R.from_sparse(real_lattice=lat, wannier_centers_red=cen, matrices={"Ham": dict(ham)})
+    return syst, make_grid(rep, syst, fft)
 
 
 def check(pid, tier):
     rep = Report(pid, tier, "model_checking")
+    try:
+        return _check(rep, tier)
+    except Exception:
+        finish_on_error(rep)
+        raise
+
+
+def _check(rep, tier):
     thorough = tier == "thorough"
     rng = random.Random(seed() * 7919 + 2)
     import wannierberri  # noqa: F401  (import before the timers of the replays)
     from wannierberri.fourier import fft as wbfft
-    if not wbfft.PYFFTW_IMPORTED:
+    if not getattr(wbfft, "PYFFTW_IMPORTED", True):
         rep.assume("pyfftw is not importable: fftlib='fftw' silently falls back to numpy in this environment")
     rep.rule("TLC enumerates every Hermitian model with <= MAXHOPS independent hoppings over the listed R universe / orbital pairs / "
              "amplitudes, every listed lattice, centre set, FFT grid and K-shift; a case = one enumerated input replayed on the real "
-             "back ends (fftw, numpy, slow, k-list; HH_K, Xbar, R_to_k; derivative orders 0..MAXDER, all 3^n components) with exact "
-             "expected values from the TLC state, plus seeded random recorded calls validated by TLC; distinct by input")
+             "back ends (numpy, one of fftw / slow chosen by the seed, the k-list; every stride-th input all four; HH_K, Xbar, R_to_k; "
+             "derivative orders 0..MAXDER, all 3^n components) with exact expected values from the TLC state, plus seeded random "
+             "recorded calls validated by TLC; distinct by input")
     rep.assume("amplitudes in Z[zeta12], centres in quarters, integer lattice matrices, FFT sizes dividing 12, K-shifts in twelfths: the "
                "exact values lie in Z[zeta12]/4^der and the floating-point results are exact to ~1e-13")
     cyclo_library_check(rep)
@@ -419,7 +509,7 @@ def check(pid, tier):
             ("c02_1d_der3", dict(RSETID=1, NWS="{1, 2}", LATIDS="{1, 2}", TAUIDS="{1, 2, 3}", AMPIDS="{1, 2, 3, 4}", MAXHOPS=1,
                                  FFTS="{111, 211, 311, 411, 611}", DKS="{0, 10000, 70000}", MAXDER=3), 1),
             ("c02_2d", dict(RSETID=3, NWS="{1, 2}", LATIDS="{2}", TAUIDS="{1, 2}", AMPIDS="{1, 2}", MAXHOPS=1,
-                            FFTS="{221, 231, 321, 341, 441, 621}", DKS="{0, 60500}", MAXDER=2), 1),
+                            FFTS="{221, 231, 321, 341, 441, 621}", DKS="{0, 60500, 20200}", MAXDER=2), 1),
             ("c02_2d_two", dict(RSETID=2, NWS="{2}", LATIDS="{2}", TAUIDS="{2}", AMPIDS="{1, 2}", MAXHOPS=2,
                                 FFTS="{221, 231, 341}", DKS="{10300}", MAXDER=1), 3),
             ("c02_3d", dict(RSETID=4, NWS="{1, 2}", LATIDS="{1, 3}", TAUIDS="{2}", AMPIDS="{1, 2}", MAXHOPS=1,
@@ -432,107 +522,127 @@ def check(pid, tier):
             ("c02_1d_der3", dict(RSETID=1, NWS="{2}", LATIDS="{2}", TAUIDS="{2}", AMPIDS="{1, 2}", MAXHOPS=1,
                                  FFTS="{111, 211, 311, 411, 611}", DKS="{0, 10000}", MAXDER=3), 2),
             ("c02_1d", dict(RSETID=1, NWS="{1, 2}", LATIDS="{1}", TAUIDS="{1, 2}", AMPIDS="{1, 2}", MAXHOPS=1,
-                            FFTS="{111, 211, 311, 411, 611}", DKS="{0, 70000}", MAXDER=1), 4),
+                            FFTS="{111, 211, 311, 411, 611}", DKS="{0, 20000}", MAXDER=1), 4),
             ("c02_2d", dict(RSETID=2, NWS="{2}", LATIDS="{2}", TAUIDS="{2}", AMPIDS="{1, 2}", MAXHOPS=1,
                             FFTS="{221, 231, 341}", DKS="{10300}", MAXDER=2), 2),
             ("c02_1d_two", dict(RSETID=1, NWS="{2}", LATIDS="{1}", TAUIDS="{2}", AMPIDS="{2}", MAXHOPS=2,
                                 FFTS="{211, 311}", DKS="{50000}", MAXDER=1), 2),
         ]
     nalias = nshift = ntriv = nreplayed = 0
-    import time
-    t_replay = 0.0
+    info = dict(grid_listed_in_another_order=0, backends_per_state=defaultdict(int))
+    cpu0 = os.times()
     for name, kw, stride in configs:
         cfg, consts = mc_cfg(**kw)
-        st = ftable.enumerate_states("MC_TBFourier.tla", cfg, name, timeout=3000)
-        if ftable.spec_violation(rep, st, name):
+        tst = enumerate_states("MC_TBFourier.tla", cfg, name)
+        if tst.get("violation"):
+            from ..ftable import spec_violation
+            spec_violation(rep, tst, name)
             continue
-        tlc.check_not_vacuous(st, ["Eval"], name)
-        st["constants"] = consts
-        rep.add_tlc(name, st)
-        ndone = 0
-        for s in fast_dump_states(st, fast_vars=("direct",)):
-            if s["phase"] != "done":
-                continue
-            ndone += 1
+        tlc.check_not_vacuous(tst, ["Eval"], name)
+        tst["constants"] = consts
+        rep.add_tlc(name, tst)
+        states = sorted_states(tst, ("direct",), lambda s: s["phase"] == "done",
+                               lambda s: (s["nw"], s["latid"], s["tauid"], tuple(s["fft"]), tuple(s["dk"]),
+                                          sorted((tuple(h["R"]), h["a"], h["b"], tuple(h["v"])) for h in map(dict, s["hops"]))))
+        if 2 * len(states) != tst["distinct"]:
+            raise MachineryError(f"{name}: {len(states)} finished states in the dump, TLC reported {tst['distinct']} states")
+        for idx, s in enumerate(states):
             hops = [dict(h) for h in s["hops"]]
             Rs = {tuple(h["R"]) for h in hops} | {(0, 0, 0)}
             fft = tuple(s["fft"])
             alias = len({tuple(r % f for r, f in zip(R, fft)) for R in Rs}) < len(Rs)
             trivial = all(all(x == 0 for x in v) for v in np.asarray([[list(m[a][b]) for a in range(s["nw"]) for b in range(s["nw"])]
                                                                       for m in s["direct"][()]]).reshape(-1, 4))
+            # every state: numpy + one seeded FFT back end + k-list; every stride-th state: all back ends
+            det = replay_state(rep, cmp, s, consts["MAXDER"], rng, (idx + 1) % stride == 0, info)
             rep.case((name, s["nw"], s["latid"], s["tauid"], tuple(sorted((tuple(h["R"]), h["a"], h["b"], tuple(h["v"])) for h in hops)),
                       fft, tuple(s["dk"])), nontrivial=not trivial)
             nalias += alias
             nshift += any(s["dk"])
             ntriv += trivial
-            # every state is replayed with one (seeded) back end; every stride-th state with all of them
-            t0 = time.time()
-            det = replay_state(rep, cmp, s, consts["MAXDER"], rng, full=(ndone % stride == 0))
-            t_replay += time.time() - t0
             nreplayed += 1
             if nreplayed <= 2:
                 rep.sample(dict(config=name, **det, HH_K_first_row=str(exact_rows_array(s["direct"], 0, 1, s["nw"], DD)[0].tolist())))
-        if 2 * ndone != st["distinct"]:
-            raise MachineryError(f"{name}: {ndone} finished states in the dump, TLC reported {st['distinct']} states")
-    if nalias == 0 or nshift == 0 or nreplayed - ntriv == 0:
+        drop_scratch(tst)
+    if not rep.violations and (nalias == 0 or nshift == 0 or nreplayed - ntriv == 0):
         raise MachineryError(f"vacuous enumeration: aliasing cases {nalias}, shifted cases {nshift}, non-zero models {nreplayed - ntriv}")
+    cpu1 = os.times()
     rep.part("replay", states_replayed=nreplayed, with_aliasing=nalias, with_K_shift=nshift, zero_models=ntriv,
-             max_relative_deviation_from_exact=cmp.maxdev, max_hermiticity_deviation=cmp.maxherm, tolerance=TOL, replay_wall_s=round(t_replay, 1))
+             states_by_number_of_back_ends_run={str(k): v for k, v in sorted(info["backends_per_state"].items())},
+             max_relative_deviation_from_exact=cmp.maxdev, max_hermiticity_deviation=cmp.maxherm, tolerance=TOL,
+             replay_cpu_s=round(cpu1.user + cpu1.system - cpu0.user - cpu0.system, 1))
+    rep.part("information_not_part_of_the_statement", fft_grid_listed_in_another_order_than_the_model=info["grid_listed_in_another_order"])
     if cmp.maxdev * 1e4 > TOL:
-        raise MachineryError(f"tolerance {TOL} is not 10^4 times the observed deviation {cmp.maxdev}")
+        rep.part("tolerance_warning", observed=cmp.maxdev, tolerance=TOL, what="the tolerance is less than 10^4 times the observed deviation")
 
     # ---------------- sensitivity: plausible wrong variants must be rejected by TLC
     sens = dict(RSETID=1, NWS="{1}", LATIDS="{1}", TAUIDS="{1}", AMPIDS="{1, 2}", MAXHOPS=1, FFTS="{211, 311}", DKS="{10000}", MAXDER=0)
-    st1 = tlc.run_tlc("MC_TBFourier.tla", mc_cfg(**dict(sens, OnReducedR="TRUE"))[0], "c02_sens_phase", workers=4, coverage=False, timeout=900)
+    st1 = run_tlc("MC_TBFourier.tla", mc_cfg(**dict(sens, OnReducedR="TRUE"))[0], "c02_sens_phase", workers=2, heap="1g", coverage=False, timeout=900)
     if not st1.get("violation") or st1["violation"][1] != "FFTEqualsDirect":
         raise MachineryError(f"sensitivity self-test failed: K-shift phase on the reduced R should violate FFTEqualsDirect ({st1.get('violation')}, {st1.get('error')})")
-    st2 = tlc.run_tlc("MC_TBFourier.tla", mc_cfg(**dict(sens, Symmetrise="FALSE"))[0], "c02_sens_herm", workers=4, coverage=False, timeout=900)
+    st2 = run_tlc("MC_TBFourier.tla", mc_cfg(**dict(sens, Symmetrise="FALSE"))[0], "c02_sens_herm", workers=2, heap="1g", coverage=False, timeout=900)
     if not st2.get("violation") or st2["violation"][1] not in ("HkHermitian", "HermSymNoopHHK"):
         raise MachineryError(f"sensitivity self-test failed: non-Hermitian models should violate HkHermitian ({st2.get('violation')}, {st2.get('error')})")
     rep.part("sensitivity", phase_on_reduced_R=st1["violation"][1], non_hermitian_model=st2["violation"][1])
+    for x in (st1, st2):
+        x["violation"] = None
+        drop_scratch(x)
 
     # ---------------- code -> spec
     recs = []
-    nrec = 1000 if thorough else 90
-    nmodel = 0
-    while len(recs) < nrec:
+    nrec = 600 if thorough else 60
+    nmodel = tries = 0
+    while len(recs) < nrec and tries < 20 * nrec:
         m = random_exact_model(rng, thorough)
         nmodel += 1
         for _ in range(3):
-            r = make_record(rep, rng, m, cmp)
+            tries += 1
+            r = make_record(rep, rng, m)
             if r is not None:
                 recs.append(r)
-                rep.case(("rec", len(recs)), nontrivial=True)
-    stv, bad = validate_parallel("TBFourierRec.tla", recs, "c02", 8)
-    rep.add_tlc("c02_records", stv)
-    rep.add_traces(len(recs))
-    for i, clauses in bad.items():
-        r = recs[i]
-        rep.violation(f"recorded:{r['via']}:{r['lib']}:" + ",".join(sorted(clauses)), dict(record=r, failing_clauses=clauses))
-    kinds = defaultdict(int)
-    for r in recs:
-        kinds[(r["via"], r["lib"], len(r["cs"]))] += 1
-    for lib in LIBS + ("slow_path",):
-        if not any(k[1] == lib for k in kinds):
+    # every back end must occur: top up deterministically
+    for lib in LIBS + ("klist",):
+        tries = 0
+        while not any(r["lib"] == lib for r in recs) and tries < 200 and not rep.violations:
+            tries += 1
+            r = make_record(rep, rng, random_exact_model(rng, thorough))
+            if r is not None and r["lib"] == lib:
+                recs.append(r)
+        if not any(r["lib"] == lib for r in recs) and not rep.violations:
             raise MachineryError(f"no record for back end {lib}")
-    rep.part("records", models=nmodel, by_kind={f"{a}/{b}/der{c}": n for (a, b, c), n in sorted(kinds.items())})
-    rep.sample({k: v for k, v in recs[0].items()})
-    # binding self-test: corrupted records must be rejected
-    cand = [r for r in recs if any(any(x != 0 for x in e) for row in r["rows"] for line in row for e in line)]
-    if not cand:
-        raise MachineryError("no non-zero record for the binding self-test")
-    b1 = copy.deepcopy(cand[0])
-    b1["rows"][0][0][0][0] += 1
-    src2 = next((r for r in cand if r["kind"] == "fft" and len(r["rows"]) > 1 and r["rows"][0] != r["rows"][1]), None)
-    bads = [b1]
-    if src2 is not None:
-        b2 = copy.deepcopy(src2)
-        b2["rows"] = b2["rows"][1:] + b2["rows"][:1]     # rows in another k-order
-        bads.append(b2)
-    _, bb = ftable.validate_records("TBFourierRec.tla", ftable.REC_CFG, bads, "c02_selftest")
-    if any(i not in bb for i in range(len(bads))):
-        raise MachineryError(f"binding self-test failed: corrupted records accepted ({bb})")
-    rep.part("binding_selftest", corrupted_records_rejected={str(k): v for k, v in bb.items()})
+    if recs:
+        stv, bad = validate_parallel("TBFourierRec.tla", recs, "c02")
+        rep.add_tlc("c02_records", stv)
+        rep.add_traces(len(recs))
+        for i, clauses in bad.items():
+            r = recs[i]
+            rep.violation(f"recorded:{r['via']}:{r['lib']}:" + ",".join(sorted(clauses)), dict(record=r, failing_clauses=clauses))
+        kinds = defaultdict(int)
+        distinct = set()
+        for r in recs:
+            kinds[(r["via"], r["lib"], len(r["cs"]))] += 1
+            key = repr((r["nw"], r["D"], r["lat"], r["tau"], r["hops"], r["fft"], r["dk"], r["cs"], r["via"], r["lib"], r["k12"]))
+            if key not in distinct:
+                distinct.add(key)
+                rep.case(("rec", key), nontrivial=True)
+        rep.part("records", models=nmodel, distinct_calls=len(distinct), by_kind={f"{a}/{b}/der{c}": n for (a, b, c), n in sorted(kinds.items())})
+        rep.sample({k: v for k, v in recs[0].items()})
+        # binding self-test: corrupted records must be rejected
+        cand = [r for r in recs if any(any(x != 0 for x in e) for row in r["rows"] for line in row for e in line)]
+        if not cand:
+            raise MachineryError("no non-zero record for the binding self-test")
+        b1 = copy.deepcopy(cand[0])
+        b1["rows"][0][0][0][0] += 1
+        src2 = next((r for r in cand if r["kind"] == "fft" and len(r["rows"]) > 1 and r["rows"][0] != r["rows"][1]), None)
+        bads = [b1]
+        if src2 is not None:
+            b2 = copy.deepcopy(src2)
+            b2["rows"] = b2["rows"][1:] + b2["rows"][:1]     # rows attributed to the wrong k-points
+            bads.append(b2)
+        _, bb = validate_parallel("TBFourierRec.tla", bads, "c02_selftest", 1)
+        if any(i not in bb for i in range(len(bads))):
+            raise MachineryError(f"binding self-test failed: corrupted records accepted ({bb})")
+        rep.part("binding_selftest", corrupted_records_rejected={str(k): v for k, v in bb.items()})
 
     numeric_only(rep, rng, 400 if thorough else 40)
     return rep.finish()
